@@ -231,6 +231,51 @@ def siblings(ctx, n1, n2, src):
         shutil.rmtree(d, ignore_errors=True)
 
 
+def suffixless_sessions(ctx, src):
+    """the output file named without extension (the constructor's message: "Either delete it or give .tsv as extension"):
+    the table is <name>.tsv; a first session, a second aggregator on the same name (continuing), everything resubmitted"""
+    import tempfile
+    d = tempfile.mkdtemp(prefix="c17nosuffix")          # the extension test looks at the whole path: no dot anywhere in it
+    inp = {"mode": "suffixless", "name": "results", "sessions": [["s1"], ["s1", "s2"]], "src": src, "dot_free_dir": "." not in d}
+    ctx.case(inp, True, sample=inp)
+    ctx.count("suffixless_output_name")
+    try:
+        if "." in d:
+            ctx.notes.append("no dot-free scratch directory available for the suffix-less output name")
+            return
+        err = None
+        try:
+            with quiet():
+                for sess in inp["sessions"]:
+                    agg = PA.Panoptica_Aggregator(mk_evaluator(), os.path.join(d, "results"))
+                    for k, nm in enumerate(["s1", "s2"]):
+                        if nm in sess:
+                            x, y = subject_arrays(k + 1)
+                            agg.evaluate(x, y, nm)
+        except Exception as e:      # noqa
+            err = f"{type(e).__name__}: {str(e)[:120]}"
+        files = sorted(os.listdir(d))
+        rows = []
+        if os.path.exists(os.path.join(d, "results.tsv")):
+            with builtins.open(os.path.join(d, "results.tsv"), newline="") as f:
+                rows = list(csv.reader(f, delimiter="\t"))
+        hdrs = sum(1 for r in rows if r and r[0] == "subject_name")
+        got = sorted(r[0] for r in rows if r and r[0] != "subject_name")
+        if err:
+            ctx.violation(f"C17 violated: with the output file named without extension, creating the aggregator / evaluating raised {err} "
+                          f"(files present: {files})", inp, impl={"files": files, "error": err}, key={"kind": "suffixless"})
+        elif hdrs != 1 or got != ["s1", "s2"] or (rows and rows[0][0] != "subject_name"):
+            ctx.violation(f"C17 violated: output named without extension, two sessions: results.tsv holds {hdrs} header line(s) and rows for {got}, "
+                          f"expected the header once and one row for each of ['s1', 's2'] (files present: {files})", inp,
+                          impl={"files": files, "rows": got, "headers": hdrs}, key={"kind": "suffixless"})
+        else:
+            for r in rows[1:]:
+                if r != reference_row(r[0], {"s1": 1, "s2": 2}[r[0]]):
+                    ctx.violation(f"C17 violated: output named without extension: row of {r[0]} differs from an uninterrupted run", inp, key={"kind": "suffixless"})
+    finally:
+        shutil.rmtree(d, ignore_errors=True)
+
+
 def shared_evaluator_sessions(ctx, lt1, lt2, src):
     """several aggregator objects in one interpreter sharing ONE evaluator object (a re-run cell, a loop over model
     outputs): re-creating an aggregator on its own output file must work, and a neighbour on another file must get
@@ -349,6 +394,7 @@ def run(ctx):
     for n1, n2 in pairs:
         siblings(ctx, n1, n2, f"sib.{n1}.{n2}")
     locale_resume(ctx, "locale")
+    suffixless_sessions(ctx, "suffixless")
     for lt1 in (False, True):
         for lt2 in (False, True):
             shared_evaluator_sessions(ctx, lt1, lt2, f"shared.{lt1}.{lt2}")
@@ -367,6 +413,9 @@ def replay(ctx, rec):
         shared_evaluator_sessions(ctx, rec["input"]["log_times"][0], rec["input"]["log_times"][1], "replay")
         return
     i = rec["input"]
+    if i.get("mode") == "suffixless":
+        suffixless_sessions(ctx, "replay")
+        return
     if i.get("mode") == "siblings":
         siblings(ctx, i["files"][0], i["files"][1], "replay")
     else:
